@@ -877,6 +877,10 @@ class Connection(ExportImport):
     def readCurrent(self, ob):
         assert ob._p_jar is self
         assert ob._p_oid is not None and ob._p_serial is not None
+        if ob._p_changed is None:
+            # A ghost has no serial yet: load it, so that there is a
+            # revision to depend on.
+            ob._p_activate()
         if ob._p_serial != z64:
             self._readCurrent[ob._p_oid] = ob._p_serial
 
